@@ -24,7 +24,7 @@ theorem commands_are_modelled :
     Gen.cmdNames = ["query", "register", "unregister"]
     ∧ Gen.cmdTable = [(nmQuery, 1), (nmRegister, 2), (nmUnregister, 1)] := by decide
 
-/-- every request the client classes build (AST) carries the magic `_work` checks and a command the registry
+/-- every request the six client methods send (observed on a recording socket) carries the magic `_work` checks and a command the registry
 knows after lower-casing -/
 theorem client_requests_understood :
     Gen.clientRequests.all (fun r => (r.1.toList.map Char.toNat == Gen.magic)
